@@ -40,23 +40,50 @@ theorem hb_mono (tr more : List Ev) (a b : Nat) (h : HB tr a b) : HB (tr ++ more
   | sw h ha hb ht => exact HB.sw h (getElem?_append_of_some _ _ _ _ ha) (getElem?_append_of_some _ _ _ _ hb) ht
   | trans _ _ ih1 ih2 => exact HB.trans ih1 ih2
 
+/-- a generating edge of happens-before between two positions (computable) -/
+def hbEdgeB (tr : List Ev) (a b : Nat) : Bool :=
+  match tr[a]?, tr[b]? with
+  | some ea, some eb => ea.tid == eb.tid || swEdge ea.act eb.act
+  | _, _ => false
+
+/-- `R` contains the generating edges of the trace and is transitive (computable check) -/
+def hbClosedB (tr : List Ev) (R : Nat → Nat → Bool) : Bool :=
+  (List.range tr.length).all fun b => (List.range b).all fun a =>
+    (!hbEdgeB tr a b || R a b) && (List.range a).all fun z => !(R z a && R a b) || R z b
+
 /-- happens-before is contained in every relation that contains its generating edges and is
 transitive (used to show that two events are *not* ordered) -/
-theorem hb_sub (tr : List Ev) (R : Nat → Nat → Bool)
-    (hedge : ∀ b, b < tr.length → ∀ a, a < b → ∀ ea eb, tr[a]? = some ea → tr[b]? = some eb →
-      (ea.tid = eb.tid ∨ swEdge ea.act eb.act = true) → R a b = true)
-    (htrans : ∀ c, c < tr.length → ∀ b, b < c → ∀ a, a < b → R a b = true → R b c = true → R a c = true)
+theorem hb_sub (tr : List Ev) (R : Nat → Nat → Bool) (hcl : hbClosedB tr R = true)
     (a b : Nat) (h : HB tr a b) : R a b = true := by
+  simp only [hbClosedB, List.all_eq_true, List.mem_range, Bool.and_eq_true, Bool.or_eq_true,
+    Bool.not_eq_true'] at hcl
   have bound : ∀ a b, HB tr a b → b < tr.length := by
     intro a b h
     induction h with
     | po _ _ hb _ => exact getElem?_lt_of_some _ _ _ hb
     | sw _ _ hb _ => exact getElem?_lt_of_some _ _ _ hb
     | trans _ _ _ ih2 => exact ih2
+  have edge : ∀ a b ea eb, a < b → tr[a]? = some ea → tr[b]? = some eb →
+      (ea.tid = eb.tid ∨ swEdge ea.act eb.act = true) → R a b = true := by
+    intro a b ea eb hab ha hb he
+    rcases (hcl b (getElem?_lt_of_some _ _ _ hb) a hab).1 with h' | h'
+    · have : hbEdgeB tr a b = true := by
+        simp only [hbEdgeB, ha, hb, Bool.or_eq_true, beq_iff_eq]; exact he
+      rw [this] at h'; cases h'
+    · exact h'
   induction h with
-  | po h ha hb ht => exact hedge _ (getElem?_lt_of_some _ _ _ hb) _ h _ _ ha hb (Or.inl ht)
-  | sw h ha hb ht => exact hedge _ (getElem?_lt_of_some _ _ _ hb) _ h _ _ ha hb (Or.inr ht)
-  | trans h1 h2 ih1 ih2 => exact htrans _ (bound _ _ h2) _ (hb_lt _ _ _ h2) _ (hb_lt _ _ _ h1) ih1 ih2
+  | po h ha hb ht => exact edge _ _ _ _ h ha hb (Or.inl ht)
+  | sw h ha hb ht => exact edge _ _ _ _ h ha hb (Or.inr ht)
+  | trans h1 h2 ih1 ih2 =>
+    rcases (hcl _ (bound _ _ h2) _ (hb_lt _ _ _ h2)).2 _ (hb_lt _ _ _ h1) with h' | h'
+    · rw [ih1, ih2] at h'; simp at h'
+    · exact h'
+
+theorem not_hb_of_closed (tr : List Ev) (R : Nat → Nat → Bool) (hcl : hbClosedB tr R = true)
+    (a b : Nat) (hr : R a b = false) : ¬ HB tr a b := by
+  intro h
+  rw [hb_sub tr R hcl a b h] at hr
+  cases hr
 
 theorem trunFrom_st (wv : WriteFn) (ts : TState) (sched : List Nat) :
     (trunFrom wv ts sched).st = runFrom wv ts.st sched := by
